@@ -152,7 +152,7 @@ def VolumeMatrix(
     logger.info(f"Calculate the Voronoi volume matrix for configuration No.{nconfig}")
     box = list_box[nconfig]
     points = list_points[nconfig]
-    num_particles = points.shape[nconfig]
+    num_particles = points.shape[0]
     matrixA = np.zeros((num_particles, num_particles * ndim))
 
     # original voronoi volume
